@@ -1016,6 +1016,8 @@ func (r *Runner) subshell(background bool) *Runner {
 		usedNew:        r.usedNew,
 		exit:           r.exit,
 		lastExit:       r.lastExit,
+		noErrExit:      r.noErrExit, // errexit stays ignored in a subshell of a condition
+		inFunc:         r.inFunc,    // return and local work in a subshell of a function
 
 		origStdout: r.origStdout, // used for process substitutions
 	}
